@@ -49,7 +49,7 @@ def run_scenario(model: Model, s):
             continue
         if o.kind == "raise":
             if s.must_raise or o.exc:
-                lib = o.exc in ("ShapeMismatch", "IncompatibleTypes", "InvalidArguments", "NotImplementedError", "RankMismatch")
+                lib = o.exc in ("ShapeMismatch", "IncompatibleTypes", "InvalidArguments", "NotImplementedError", "RankMismatch") or (s.any_exception and bool(o.exc))
                 obs.append(Ob("E5-RAISE", pk, OK if lib or not s.must_raise else VIOLATED, model.where(f), s.name,
                               f"path [{path}] raises {o.exc}" + ("" if lib or not s.must_raise else
                                                                  " (not one of the library's documented exception types)")))
